@@ -18,6 +18,12 @@ CLAIMED = {
  "C04": ("deterministic simulation with fault injection: seeded client configurations x hostile/odd server scripts x TLS handshake outcomes x cuts and redirects; wire eavesdropper that knows for every byte whether the link was encrypted + give-up check",
          "seeded search over server behaviours (including unsolicited elements at any moment and a fully scripted muted server) and handshake outcomes; safety monitor on every byte the client writes; a clean batch is evidence, not proof",
          "transport and TLS handshake outcome are simulated (no TLS records); the encrypted flag of the simulated link is the ground truth for the eavesdropper"),
+ "C05": ("deterministic simulation (no schedule dimension, stated honestly): seeded (offer, disabled set, preferred, credential history incl. FAST token, SASL version) tuples through a live negotiation; first auth element compared with an independent statement of the selection rule",
+         "seeded sampling of a finite configuration space through the real negotiation code against a scripted server; the evidence counts distinct tuples; not exhaustive",
+         "transport and server are simulated; X-* credentials never configured"),
+ "C06": ("deterministic simulation with misbehaving peer: seeded credentials, salts, iteration counts and nonces against an independent RFC 5802/2831/4616/XEP-0484 server (OpenSSL), honest and 18 misbehaving message sequences, both SASL framings, split/coalesced delivery",
+         "seeded search over inputs and server histories; byte-exact conformance oracle from an independent implementation plus 'no success without server proof' monitor; a clean batch is evidence, not proof",
+         "transport, nonces and server are simulated; inputs are SASLprep-stable"),
  "C07": ("deterministic simulation with fault injection: seeded histories of requests (raw and 34 manager APIs), scheduler-chosen replies (any sender, any order, duplicated, never), deferred e2ee jobs, link losses and (non-)resumptions; exactly-once counters, sender attribution, bounded completion",
          "seeded search over histories and schedules with a real client; every reply and every asynchronous completion is a scheduler decision; a clean batch is evidence, not proof",
          "transport, clock, server and encryption extension are simulated; 'don't care' sender variants are not judged"),
